@@ -342,20 +342,22 @@ ErrorCode FlexPath::to_polygons(bool filter, Tag tag, Array<Polygon*>& result) {
             Vec2 r2 = p - n0 * half_widths[2 * 0];
             Vec2 r3 = p_next - n0 * half_widths[2 * 1];
             Vec2 tr1 = r3 - r2;
-            tr1.normalize();
+            double tr1_len = tr1.normalize();
 
             // Left side: +n
             Vec2 l2 = p + n0 * half_widths[2 * 0];
             Vec2 l3 = p_next + n0 * half_widths[2 * 1];
             Vec2 tl1 = l3 - l2;
-            tl1.normalize();
+            double tl1_len = tl1.normalize();
 
             for (uint64_t i = 1; i < spine_points.count - 1; i++) {
                 Vec2 t2, n2;
                 Vec2 r1 = r3;
                 Vec2 tr0 = tr1;
+                const double tr0_len = tr1_len;
                 Vec2 l1 = l3;
                 Vec2 tl0 = tl1;
+                const double tl0_len = tl1_len;
                 p0 = p2;
                 p1 = p3;
                 p = p_next;
@@ -380,12 +382,12 @@ ErrorCode FlexPath::to_polygons(bool filter, Tag tag, Array<Polygon*>& result) {
                 r2 = p - n1 * half_widths[2 * i];
                 r3 = p_next - n1 * half_widths[2 * (i + 1)];
                 tr1 = r3 - r2;
-                tr1.normalize();
+                tr1_len = tr1.normalize();
 
                 l2 = p + n1 * half_widths[2 * i];
                 l3 = p_next + n1 * half_widths[2 * (i + 1)];
                 tl1 = l3 - l2;
-                tl1.normalize();
+                tl1_len = tl1.normalize();
 
                 // Check whether there is enough room for the bend
                 double bend_dir = 0;
@@ -477,6 +479,9 @@ ErrorCode FlexPath::to_polygons(bool filter, Tag tag, Array<Polygon*>& result) {
                     if (tr0.cross(tr1) < 0) {
                         // Right: inner side of the bend
                         segments_intersection(r1, tr0, r2, tr1, u0, u1);
+                        // Nearly parallel edges (tapered sections meeting at a slight angle)
+                        // intersect far away from the joint: treat them as parallel
+                        if (fabs(u0) > tr0_len || fabs(u1) > tr1_len) u0 = u1 = 0;
                         const Vec2 ri = 0.5 * (r1 + u0 * tr0 + r2 + u1 * tr1);
                         right_curve.append(ri);
                     } else {
@@ -486,10 +491,15 @@ ErrorCode FlexPath::to_polygons(bool filter, Tag tag, Array<Polygon*>& result) {
                             right_curve.append(r2);
                         } else if (join_type == JoinType::Miter) {
                             segments_intersection(r1, tr0, r2, tr1, u0, u1);
+                            // On the outer side the edges meet ahead of the first and
+                            // behind the second one; anything else means they are nearly
+                            // parallel: treat them as parallel
+                            if (u0 < 0 || u1 > 0) u0 = u1 = 0;
                             const Vec2 ri = 0.5 * (r1 + u0 * tr0 + r2 + u1 * tr1);
                             right_curve.append(ri);
                         } else if (join_type == JoinType::Natural) {
                             segments_intersection(r1, tr0, r2, tr1, u0, u1);
+                            if (u0 < 0 || u1 > 0) u0 = u1 = 0;
                             const double half_width = half_widths[2 * i];
                             u1 = -u1;
                             if (u0 <= half_width && u1 <= half_width) {
@@ -535,6 +545,7 @@ ErrorCode FlexPath::to_polygons(bool filter, Tag tag, Array<Polygon*>& result) {
                     if (tl0.cross(tl1) > 0) {
                         // Left: inner side of the bend
                         segments_intersection(l1, tl0, l2, tl1, u0, u1);
+                        if (fabs(u0) > tl0_len || fabs(u1) > tl1_len) u0 = u1 = 0;
                         const Vec2 li = 0.5 * (l1 + u0 * tl0 + l2 + u1 * tl1);
                         left_curve.append(li);
                     } else {
@@ -544,10 +555,15 @@ ErrorCode FlexPath::to_polygons(bool filter, Tag tag, Array<Polygon*>& result) {
                             left_curve.append(l2);
                         } else if (join_type == JoinType::Miter) {
                             segments_intersection(l1, tl0, l2, tl1, u0, u1);
+                            // On the outer side the edges meet ahead of the first and
+                            // behind the second one; anything else means they are nearly
+                            // parallel: treat them as parallel
+                            if (u0 < 0 || u1 > 0) u0 = u1 = 0;
                             const Vec2 li = 0.5 * (l1 + u0 * tl0 + l2 + u1 * tl1);
                             left_curve.append(li);
                         } else if (join_type == JoinType::Natural) {
                             segments_intersection(l1, tl0, l2, tl1, u0, u1);
+                            if (u0 < 0 || u1 > 0) u0 = u1 = 0;
                             const double half_width = half_widths[2 * i];
                             u1 = -u1;
                             if (u0 <= half_width && u1 <= half_width) {
